@@ -44,17 +44,19 @@ Section Inst.
   Definition c_assertion (m : option val) (w : world) : val * world :=
     (VExc "AssertionError" (match m with Some v => [v] | None => [] end), w).
   Definition c_with_cause (e c : val) (w : world) : val * world := (e, w).
+  Definition c_as_exc (v : val) (w : world) : val * world :=
+    (match v with VExc _ _ => v | VExcCls c => VExc c [] | _ => VExc "TypeError" [VStr "exceptions must derive from BaseException"] end, w).
   Definition c_mklist (l : list val) (w : world) : val * world := (VList l, w).
   Definition c_mktuple (l : list val) (w : world) : val * world := (VTuple l, w).
   Definition c_tuple_of_list (v : val) (w : world) : val * world := (match v with VList l => VTuple l | other => other end, w).
 
   Definition S_run_module :=
     run_module val world c_const c_un c_bin c_inplace c_cmp c_truth c_getattr c_setattr c_getitem c_setitem c_call
-               c_mklist c_mktuple c_tuple_of_list c_iter c_next c_exc_match c_exc_new c_assertion c_with_cause c_is_exception
+               c_mklist c_mktuple c_tuple_of_list c_iter c_next c_exc_match c_exc_new c_assertion c_with_cause c_as_exc c_is_exception
                (fun v => match v with VClo f => Some f | _ => None end) VClo (c_filt fn) c_is_int c_line_of_e (map mk_pana anas) "M".
   Definition S_rrun_module :=
     rrun_module val world c_const c_un c_bin c_inplace c_cmp c_truth c_getattr c_setattr c_getitem c_setitem c_call
-                c_mklist c_mktuple c_tuple_of_list c_iter c_next c_exc_match c_exc_new c_assertion c_with_cause c_is_exception
+                c_mklist c_mktuple c_tuple_of_list c_iter c_next c_exc_match c_exc_new c_assertion c_with_cause c_as_exc c_is_exception
                 (fun v => match v with VClo f => Some f | _ => None end) VClo (c_filt fn) c_is_int c_line_of_e (map mk_pana anas) "M".
 End Inst.
 
